@@ -31,6 +31,8 @@ def label(s):
     t = s.split()
     if t[0] == "open":
         return "LOpen %s %s 0" % (t[1], t[2])
+    if t[0] == "openfail":
+        return "LOpenFail %s" % t[1]
     return {"close": "LClose", "lambda": "LLambda", "remote": "LRemote"}[t[0]] + " %s%%nat" % t[1]
 
 
